@@ -91,7 +91,7 @@ struct Counters {
 
 static Counters CNT;
 static long long g_witnesses = 0;
-static long long g_witness_cap = 200;   // per process; all are *counted*
+static long long g_witness_cap = 600;   // distinct keys detailed per process; all are *counted*
 static std::map<std::string, long long> g_witness_by_key;
 static long long g_samples = 0;
 
@@ -100,7 +100,9 @@ inline void witness(const std::string& key, const std::string& what, J& j) {
   CNT.add("witnesses");
   long long& n = g_witness_by_key[key];
   n++;
-  if (n > 12 || g_witnesses > g_witness_cap) return;   // cap detail, keep counting
+  // detail is capped PER KEY (first 12 of each), never by the total: a frequent known mechanism must not use up the
+  // budget of a different violation that shows up later in the same process
+  if (n > 12 || (long long) g_witness_by_key.size() > g_witness_cap) return;
   j.str("key", key).str("what", what);
   printf("{\"t\":\"w\",\"v\":%s}\n", j.done().c_str());
   fflush(stdout);
